@@ -142,6 +142,8 @@ impl MinidumpWriter {
     /// Generates a minidump and writes to the destination provided. Returns the in-memory
     /// version of the minidump as well.
     pub fn dump(&mut self, destination: &mut (impl Write + Seek)) -> Result<Vec<u8>> {
+        #[cfg(mdw_verif)]
+        crate::verif_hooks::emit("dump:begin", &[("pid", self.process_id as i64)], None);
         let auxv = self
             .direct_auxv_dump_info
             .clone()
@@ -177,6 +179,12 @@ impl MinidumpWriter {
             }
         }
 
+        #[cfg(mdw_verif)]
+        crate::verif_hooks::emit(
+            "dump:generate",
+            &[("threads", dumper.threads.len() as i64)],
+            None,
+        );
         let mut buffer = Buffer::with_capacity(0);
         self.generate_dump(&mut buffer, &mut dumper, soft_errors, destination)?;
 
@@ -427,6 +435,8 @@ impl MinidumpWriter {
         //
         // ========================================================================================
 
+        #[cfg(mdw_verif)]
+        crate::verif_hooks::emit("dump:streams_done", &[("len", buffer.len() as i64)], None);
         // Collect any last-minute soft errors when trying to restart threads
         dumper.resume_threads(soft_errors.subwriter(WriterError::ResumeThreadsErrors));
 
